@@ -41,7 +41,7 @@ def cur():
 
 
 class Entry:
-    __slots__ = ('cond', 'dec', 'done', 'aux', 'ref_t', 'ref_f', 'is_assume', 'is_note')
+    __slots__ = ('cond', 'dec', 'done', 'aux', 'ref_t', 'ref_f', 'is_assume', 'is_note', 'robust')
 
     def __init__(self, cond, dec, done, aux=None, ref_t=None, ref_f=None,
                  is_assume=False, is_note=False):
@@ -53,6 +53,7 @@ class Entry:
         self.ref_f = ref_f
         self.is_assume = is_assume
         self.is_note = is_note
+        self.robust = None        # (cond holds with a margin, its negation holds with a margin) for real comparisons
 
 
 class Explorer:
@@ -134,7 +135,7 @@ class Explorer:
                 lo, hi = max(lo, old[0]), min(hi, old[1])
             self.ref[k] = (lo, hi)
 
-    def fork(self, cond, aux=None, refine=None):
+    def fork(self, cond, aux=None, refine=None, robust=None):
         if self.pos < len(self.trail):
             e = self.trail[self.pos]
             if e.is_assume or e.is_note or e.cond.get_id() != cond.get_id():
@@ -151,6 +152,7 @@ class Explorer:
         other = self._sat(neg if val else cond)
         e = Entry(cond, val, not other, aux,
                   refine[0] if refine else None, refine[1] if refine else None)
+        e.robust = robust
         self.trail.append(e)
         self.solver.push()
         self.solver.add(cond if val else neg)
@@ -213,6 +215,32 @@ class Explorer:
         self._model = None
         return True
 
+    def robust_model(self):
+        """A model of the path condition in which every comparison of reals decided on this path holds
+        with a margin (so that double rounding cannot flip it in the concrete re-execution); None when
+        the path is only feasible on a knife edge."""
+        extra = []
+        for e in self.trail:
+            if e.robust is not None:
+                r = e.robust[0] if e.dec else e.robust[1]
+                if r is None:
+                    return None
+                extra.append(r)
+        if not extra:
+            return self.get_model()
+        self.solver.push()
+        try:
+            self.solver.add(*extra)
+            t = time.time()
+            r = self.solver.check()
+            self.stats['solver_s'] += time.time() - t
+            self.stats['queries'] += 1
+            if r != z3.sat:
+                return None
+            return self.solver.model()
+        finally:
+            self.solver.pop()
+
     def begin_path(self):
         self.pos = 0
         self.ref = {}
@@ -248,14 +276,15 @@ def _bits(lo, hi):
 
 
 class SymBool:
-    __slots__ = ('e', 'refine')
+    __slots__ = ('e', 'refine', 'robust')
 
-    def __init__(self, e, refine=None):
+    def __init__(self, e, refine=None, robust=None):
         self.e = e
         self.refine = refine
+        self.robust = robust
 
     def __bool__(self):
-        return cur().fork(self.e, refine=self.refine)
+        return cur().fork(self.e, refine=self.refine, robust=self.robust)
 
     # non-forking connectives (used by harness obligations): & | ~
     def __and__(self, o):
